@@ -107,6 +107,23 @@ var canaryX int
 
 func canaryInc() { canaryX++ }
 
+// Pair is the index of the pair WorkerMain is currently building or running (it changes before the two New calls
+// of a pair): a menu that wants both calls of a pair to work on ONE shared object (documented as safe for
+// concurrent use) and a fresh object for the next pair keys its object on it (see Shared).
+var Pair int
+
+// Shared returns an accessor that hands out the same object to both calls of a pair and makes a fresh one (mk,
+// called on the worker's main goroutine, before the two calls) for every other pair.
+func Shared[T any](mk func() T) func() T {
+	at, cur := -1, *new(T)
+	return func() T {
+		if Pair != at {
+			at, cur = Pair, mk()
+		}
+		return cur
+	}
+}
+
 // IsWorker reports whether this process was started as the race-built worker of the pass.
 func IsWorker() bool { return os.Getenv("NOHB_WORKER") == "1" }
 
@@ -137,6 +154,7 @@ func WorkerMain(ops []Op, repoDir string) {
 	for i := range ops {
 		for j := range ops {
 			from := logSize()
+			Pair++
 			pa, pb := Seq(ops[i].New(), ops[j].New())
 			out.Pairs++
 			pair := ops[i].Name + " || " + ops[j].Name
